@@ -86,7 +86,7 @@ def run(ctx) -> Report:
 
     hs = handler_cache_sites(prog)
     if len(hs) < 2:
-        raise AnalysisError(f"found {len(hs)} class-level handler caches, expected MultiFunction and Transformer")
+        rep.info("C19-mro/cache", "ufl", f"{len(hs)} class-level handler caches of the known shape (a class-level dict read in __init__); C19-mro decides by interpretation")
     for cls, cname, init, fetches, kind in hs:
         for fetch in fetches:
             cache_key_rule(prog, rep, "C19-mro/cache", cls, cname, init, fetch, kind)
